@@ -245,7 +245,7 @@ def run_scenario(run: Run, scen: dict, rng: random.Random):
 
 
 def check(run: Run, tier: str, seed: int):
-    n = 60 if tier == "quick" else 1200
+    n = 120 if tier == "quick" else 1200
     for i in range(n):
         srng = random.Random(f"C12-{seed}-{i}")
         scen = rand_scen(srng, i)
